@@ -112,4 +112,14 @@ func init() {
 		externs: []string{"binary.Uvarint", "tooling.DecompressZstd", "LinkedLog.getCurrentOffset", "os.File.ReadAt:out0",
 			"github.com/rpcpool/yellowstone-faithful/indexes.OffsetAndSize.FromBytes:recv"},
 		devirt: map[string]string{"UvarintReader": "uvarintReader"}, hoist: true})
+	// (*GsfaReader).Get: the walk along an address's chain of records (head from the pubkey index, then ReadWithSize of
+	// each previous pointer), with its limit
+	registerGoLite(glGroup{id: "golitegetc06", out: "GoLiteGetC06.v", pkgDir: "gsfa",
+		funcs: []glFunc{{recv: "GsfaReader", name: "Get"}},
+		externs: []string{
+			"github.com/rpcpool/yellowstone-faithful/indexes.PubkeyToOffsetAndSize_Reader.Get",
+			"compactindexsized.IsNotFound",
+			"github.com/rpcpool/yellowstone-faithful/indexes.OffsetAndSize.IsZero",
+			"github.com/rpcpool/yellowstone-faithful/gsfa/linkedlog.LinkedLog.ReadWithSize"},
+		ignore: []string{"debugln"}, hoist: true, recvArg: true})
 }
